@@ -159,6 +159,11 @@ def evaluate_history(res):
             if not ps:
                 orc.append(("C07:empty-leaf", "%s: leaf %d holds no particle" % (key, idx)))
         orc += cell_clauses(D, H, bs, mode, groups, [pg[k] for k in sorted(pg)], key)
+    # both trees of the target/source variant, as built and after rebuild: leaves = the occupied leaves of that side's particles
+    from props import C13
+    c2, o2 = C13.tsm_history(res, "C07")
+    corr += c2
+    orc += [x for x in o2 if x[0] in ("C07:tsm-identity", "C07:tsm-leaf")]
     return corr, orc
 
 
